@@ -19,7 +19,8 @@ def main():
     pid, k = sys.argv[1], sys.argv[2]
     needs = sys.argv[3] if len(sys.argv) > 3 else ""
     summary = sys.argv[4] if len(sys.argv) > 4 else ""
-    src = "/tmp/wt/%s" % pid
+    src = os.path.join(os.environ.get("SEED_SRC", "/tmp/wt"), pid)
+    tag = os.environ.get("SEED_TAG", "m")
     diff = os.path.join(src, "mutant%s.diff" % k)
     demo = os.path.join(src, "demo%s.py" % k)
     wt = tempfile.mkdtemp(prefix="yld-confirm-", dir="/var/tmp")
@@ -47,7 +48,7 @@ def main():
     finally:
         subprocess.run(["git", "-C", "/repo", "worktree", "remove", "--force", wt], capture_output=True)
         shutil.rmtree(wt, ignore_errors=True)
-    dst = os.path.join(VERIF, "seeded", "%s-m%s" % (pid, k))
+    dst = os.path.join(VERIF, "seeded", "%s-%s%s" % (pid, tag, k))
     os.makedirs(dst, exist_ok=True)
     shutil.copy(diff, os.path.join(dst, "patch.diff"))
     shutil.copy(demo, os.path.join(dst, "demo.py"))
